@@ -331,10 +331,15 @@ func init() {
 			}
 			runCases(c, theDriver, countRedefCases(r, n, "decode-failure-not-reported"))
 			reusedStreamer(c, r, tier, "C06")
+			panickingConsumer(c, r, tier)
 		}})
 	register(&Property{ID: "C07",
-		Rule:  "real Stream() attempts with server ids {0, 1, 65535, 65536, 2^31-1, 2^31, 2^32-1, random}, file names of 0..255 bytes incl. empty, path-like, dotted, blank, NUL, quoted, non-UTF-8 and random-byte names, offsets {4, 2^32-1, 2^31, random}, sequences of up to 4 attempts on one streamer, some refused before the dump, some ending only after the format description was received, the position moved by the caller between attempts; attempts that deliver some transactions and then fail in the handler, followed by an attempt that must ask for the end label of the last accepted transaction; the master decodes the COM_QUERY and COM_BINLOG_DUMP it received. Non-trivial: every scenario",
-		Extra: func(c *Collector, r *RNG, tier string) { extraC07(c, r, tier); reusedStreamer(c, r, tier, "C07") }})
+		Rule: "real Stream() attempts with server ids {0, 1, 65535, 65536, 2^31-1, 2^31, 2^32-1, random}, file names of 0..255 bytes incl. empty, path-like, dotted, blank, NUL, quoted, non-UTF-8 and random-byte names, offsets {4, 2^32-1, 2^31, random}, sequences of up to 4 attempts on one streamer, some refused before the dump, some ending only after the format description was received, the position moved by the caller between attempts; attempts that deliver some transactions and then fail in the handler, followed by an attempt that must ask for the end label of the last accepted transaction; the master decodes the COM_QUERY and COM_BINLOG_DUMP it received. Non-trivial: every scenario",
+		Extra: func(c *Collector, r *RNG, tier string) {
+			extraC07(c, r, tier)
+			reusedStreamer(c, r, tier, "C07")
+			concurrentReposition(c, r, tier)
+		}})
 	register(&Property{ID: "C08",
 		Rule:  "real Stream() with handlers that (a) keep deep references and re-read every delivered transaction after the stream ended, (b) overwrite every delivered byte slice; histories with string/blob/bit/set values (sub-slices of the event buffer) and, for every formatted type, one value repeated in all rows (its zero or a non-zero one; all TIMESTAMP columns in the same second), the scribbling run first; packet sizes around the driver's buffer thresholds (4091..4097, 8187..8193, 262139..262145 byte payloads); master far ahead vs lock-step; plus readBinlogEvent over a scripted connection that reuses one buffer; multi-file histories (rotations, restarts) through parseEvents with every delivered transaction - positions included - rendered at delivery and again at the end. Non-trivial: every scenario",
 		Extra: extraC08})
@@ -449,6 +454,11 @@ func extraC05(col *Collector, r *RNG, tier string) {
 			opts.script = scriptFor(h, hf)
 			pf = &hf
 			desc = "reader-holding-event:handler-slow-then-fails"
+			if i%20 == 6 {
+				opts.background = true
+				pf = nil
+				desc += ":background-context"
+			}
 		case 7: // a long backlog: the parser stops (handler error / cancel) while the master is >100 packets ahead
 			h = &hist{cfg: h.cfg, ext: map[string][]string{}, tables: h.tables}
 			ts := uint32(1600005000)
@@ -470,6 +480,11 @@ func extraC05(col *Collector, r *RNG, tier string) {
 			if r.Bool() {
 				opts.failAt = r.Intn(4)
 				desc = "long-backlog:handler-fails-early"
+				if r.Bool() {
+					// a daemon that never cancels: Stream(context.Background(), …) - a context whose Done() is nil
+					opts.background = true
+					desc = "long-backlog:handler-fails-early:background-context"
+				}
 			} else {
 				opts.cancelAfter = 1 + r.Intn(3)
 				desc = "long-backlog:cancel-early"
@@ -1017,6 +1032,7 @@ func extraC08(col *Collector, r *RNG, tier string) {
 	for i := 0; i < np/4; i++ {
 		provenanceCheck(col, aliasHistory(r, allCfgs[i%len(allCfgs)], r.Intn(50)))
 	}
+	rereadCheck(col, bulkHistory(r, allCfgs[r.Intn(len(allCfgs))], 1500)) // a transaction of 1500 events, kept and re-read
 	targets := []int{0, 4091, 4092, 4093, 4094, 4095, 4096, 4097, 8187, 8190, 8192, 8193}
 	if tier == "thorough" {
 		targets = append(targets, 262139, 262140, 262141, 262142, 262143, 262144, 262145, 16383, 16384, 16385)
